@@ -598,6 +598,7 @@ def run(prog, rep, tier='quick', config='default'):
 
     r5b(prog, rep)
     r5c(prog, rep)
+    r5d(prog, rep)
 
 
 def r5b(prog, rep, require_floor=True):
@@ -773,6 +774,58 @@ def r5c(prog, rep, require_floor=True):
             rep.ok('R5c', 'no-index-bounded-only-by-another-length', fn='(all product crates)',
                    detail='%d usize index sites on Vec/slice examined; %d draw their index from a length-bounded range or test; none is '
                           'bounded only by the length of a different sequence' % (n_sites, n_bounded), trivial=True)
+
+
+
+# ------------------------------------------------------------------ R5d: no exact-equality assertion on a rounded Decimal expression
+ARITH = re.compile(r'std::ops::(Add|Sub|Mul|Div|Rem)(Assign)?::(add|sub|mul|div|rem)(_assign)?$')
+DECTY = re.compile(r'rust_decimal::Decimal|util::decimal::ConstrainedDecimal')
+
+
+def r5d(prog, rep, require_floor=True):
+    """`assert_eq!(a, b)` / `assert!(a == b)` in product code where a or b is computed *in that function* by Decimal arithmetic:
+    rust_decimal rounds every operation to 28 significant digits, so two ways of computing the same quantity agree only up to
+    the last digits, and the assertion aborts the process on valid input (e.g. x + 8 - 8 != x for x = 8/3)."""
+    n_assert = 0
+    ordn = {}
+    for fn in prog.product_fns():
+        for c in fn.calls:
+            is_assert = 'panicking::assert_failed' in c.callee or \
+                ((c.callee.endswith('panicking::panic') or 'panic_fmt' in c.callee) and c.macro_is('assert', 'assert_eq', 'assert_ne'))
+            if not is_assert:
+                continue
+            n_assert += 1
+            hit = None
+            for (sbb, discr, vals, neg) in fn.conditions_at(c.bb):
+                d = mir.provenance(fn, discr, follow_all_call_args=True)
+                eqs = [x for x in d.calls if x.decl.endswith('PartialEq::eq') or x.decl.endswith('PartialEq::ne')
+                       or x.callee.endswith('::eq') or x.callee.endswith('::ne')]
+                eqs = [x for x in eqs if any(DECTY.search(fn.ty.get(a, '')) for a in x.arg_locals())]
+                if not eqs:
+                    continue
+                for x in eqs:
+                    for a in x.args:
+                        if not is_place(a):
+                            continue
+                        oa = mir.provenance(fn, a, follow_all_call_args=True)
+                        ar = [y for y in oa.calls if (ARITH.search(y.decl) or ARITH.search(y.callee)) and
+                              any(DECTY.search(fn.ty.get(z, '')) for z in y.arg_locals())]
+                        if ar:
+                            hit = (x, ar)
+            ordn[fn.name] = ordn.get(fn.name, 0) + 1
+            k = '%s|assertion#%d|no-exact-equality-on-rounded-decimal' % (fn.name, ordn[fn.name])
+            if hit:
+                x, ar = hit
+                rep.violation('R5d', k, where=c.where(), fn=fn.name,
+                              detail='the assertion compares for exact equality a Decimal computed here by %s (at %s): every rust_decimal '
+                                     'operation rounds to 28 significant digits, so the two sides can differ in the last digit on valid input '
+                                     'and the process aborts instead of reporting' % (
+                                         ', '.join(sorted({short(y.callee) for y in ar})), ar[0].where()))
+            else:
+                rep.ok('R5d', k, where=c.where(), fn=fn.name, detail='assertion does not compare a locally computed Decimal expression for equality', trivial=True)
+    rep.extra['assert_sites'] = n_assert
+    if require_floor and n_assert < 6:
+        rep.violation('R5d', 'anchor-lost:assert-sites', detail='anchor lost: only %d assertion sites recognised in product code (12 counted by hand)' % n_assert)
 
 
 
